@@ -404,7 +404,7 @@ def doKill (s : Sys) (self : Cid) (beh : Nat) (cur : Env) (poison : Bool) : Sys 
 
 /-- `supervisionContext.applyDecision` + `onSupervise`. Decisions: 1 restart, 2 graceful restart,
 3 stop, 4 graceful stop, 5 resume, 6 escalate. -/
-def onSupervise (s : Sys) (self : Cid) (chain : List (Cid × List Cid)) : Sys :=
+def onSuperviseDecide (s : Sys) (self : Cid) (chain : List (Cid × List Cid)) : Sys :=
   let c := s.ctx self
   let failedChild := match chain with | (f, _) :: _ => f | [] => self
   let useDefault := c.strat = 0
@@ -429,6 +429,16 @@ def onSupervise (s : Sys) (self : Cid) (chain : List (Cid × List Cid)) : Sys :=
     let t : Target := match c.parent with | some p => .own p | none => .nobody
     tell s3 true (some self) t (.supervise ((self, []) :: chain') [])
   else s2
+
+/-- `Context.onSupervise`: a supervisor that is itself stopping (or a zombie) takes no decision any more — its children go
+with it. The failing child's mailbox is paused, so a poison-pill kill handed down earlier cannot be processed, and a
+decision escalated from here would come back as a directive the stopping supervisor ignores: it ends the failing child
+with an immediate kill instead. -/
+def onSupervise (s : Sys) (self : Cid) (chain : List (Cid × List Cid)) : Sys :=
+  if (s.ctx self).state = .running then onSuperviseDecide s self chain
+  else
+    let failedChild := match chain with | (f, _) :: _ => f | [] => self
+    tell s true (some self) (.own failedChild) (.onKill false)
 
 def samePath (s : Sys) (a b : Cid) : Bool := (s.ctx a).path = (s.ctx b).path
 
